@@ -54,6 +54,8 @@ func checkC02(r *Run) {
 	c02Sendmsg(r, sm)
 	c02Msgmsize(r, mm)
 	c02OverflowExposed(r)
+	// the frame written carries the caller's message: the marshalled bytes are not shared with other calls
+	c01MarshalFresh(r)
 	// the fit test compares msize with 4 + Codec.Size(fcall) while the bytes written come from Marshal: the frame
 	// bound holds only if size9p and encode agree for every type and every special case (codec-grammar rules)
 	c01Grammar(r)
@@ -342,17 +344,15 @@ func c02Truncate(r *Run, mtTop *ssa.Function) {
 			}
 			// error return: must be overflowErr{size: size-msize} on an edge implying size > msize
 			nErr++
-			flds, named, ok := compositeFields(res)
-			if !ok || named == nil || named.Obj().Name() != "overflowErr" {
-				r.Undecided("partition", "maybeTruncate: error return", ret.Pos(), "error return is not an overflowErr literal: cannot relate it to the excess")
+			l, isOv, hasSize := overflowSize(p, fa, res, 0)
+			if !isOv {
+				r.Undecided("partition", "maybeTruncate: error return", ret.Pos(), "error return is not an overflowErr literal (or a constructor of one): cannot relate it to the excess")
 				continue
 			}
-			sz := flds["size"]
-			if sz == nil {
+			if !hasSize {
 				r.Bad("overflow-amount", "maybeTruncate: overflowErr.size", ret.Pos(), "overflow error does not report a size")
 				continue
 			}
-			l := fa.Lin(sz)
 			r.Check(sizeMinusMsize(l), "overflow-amount", "maybeTruncate: overflowErr.size == msgmsize(fcall) - msize", ret.Pos(),
 				"overflow error reports "+l.String()+" instead of msgmsize(fcall) - msize", "size = "+l.String())
 			// on an edge implying size > msize: facts ⊨ msize - size + 1 <= 0
@@ -878,4 +878,63 @@ func c02OverflowExposed(r *Run) {
 		}
 	}
 	r.Check(okRet, "overflow-exposed", "Overflow: for an overflow error the result is exactly its Size()", ta.Pos(), "on the edge where the error carries an excess, Overflow returns something else than that excess")
+}
+
+// overflowSize: the excess an overflow error value reports, as an affine form in the caller's terms: the size field of
+// an overflowErr literal, or of the literal a constructor helper (`newOverflowErr(size, msize)`) returns, with the
+// helper's parameters replaced by the arguments. isOv=false: not an overflow error of a recognised shape.
+func overflowSize(p *Prog, fa *FA, res ssa.Value, depth int) (l *Lin, isOv bool, hasSize bool) {
+	if flds, named, ok := compositeFields(res); ok && named != nil && named.Obj().Name() == "overflowErr" {
+		sz := flds["size"]
+		if sz == nil {
+			return nil, true, false
+		}
+		return fa.Lin(sz), true, true
+	}
+	v := stripConv(res)
+	if mi, ok := v.(*ssa.MakeInterface); ok {
+		v = stripConv(mi.X)
+	}
+	c, ok := v.(*ssa.Call)
+	if !ok || depth > 1 {
+		return nil, false, false
+	}
+	g := staticCallee(&c.Call)
+	if g == nil || g.Blocks == nil || !p.InModule(g) || g.Signature.Results().Len() != 1 {
+		return nil, false, false
+	}
+	gfa := p.FA(g)
+	var out *Lin
+	for _, ret := range returnsOf(g) {
+		gl, ov, has := overflowSize(p, gfa, ret.Results[0], depth+1)
+		if !ov {
+			return nil, false, false
+		}
+		if !has {
+			return nil, true, false
+		}
+		// express over the arguments
+		sub := linConst(gl.C)
+		for k, coef := range gl.T {
+			a := gl.Atoms[k]
+			idx := -1
+			for i, prm := range g.Params {
+				if gfa.Sym(prm).K == a.K {
+					idx = i
+				}
+			}
+			if idx < 0 || idx >= len(c.Call.Args) {
+				return nil, false, false
+			}
+			sub = sub.Add(fa.Lin(c.Call.Args[idx]).Scale(coef))
+		}
+		if out != nil && !out.Equal(sub) {
+			return nil, false, false
+		}
+		out = sub
+	}
+	if out == nil {
+		return nil, false, false
+	}
+	return out, true, true
 }
